@@ -68,6 +68,7 @@ type Rec struct {
 	lastFlush time.Time
 	out       string
 	rule      string
+	cur       string // sub-check whose Check function is running (labels the samples)
 }
 
 // maxDistinct bounds the per-process set of non-trivial case hashes (memory
@@ -223,7 +224,7 @@ func (r *Rec) NonTrivial(sample any, key ...[]byte) {
 		n := r.nsample
 		// keep the first three and then every power of two: cheap, deterministic
 		if sample != nil && (n <= 3 || n&(n-1) == 0) && len(r.samples) < 24 {
-			if b, err := json.Marshal(sample); err == nil && len(b) < 6000 {
+			if b, err := json.Marshal(map[string]any{"sub": r.cur, "case": sample}); err == nil && len(b) < 6000 {
 				r.samples = append(r.samples, b)
 			}
 		}
@@ -432,6 +433,9 @@ func (p *Prop[C]) count() int {
 // safeCheck runs Check converting a panic inside the *harness or library* into
 // an error (a panic is a failure of the case, never a crash of the campaign).
 func (p *Prop[C]) safeCheck(c C, r *Rec) (err error) {
+	r.mu.Lock()
+	r.cur = p.Sub
+	r.mu.Unlock()
 	defer func() {
 		if x := recover(); x != nil {
 			err = fmt.Errorf("panic during check: %v", x)
